@@ -185,6 +185,27 @@ CHECKS["C17"] = dict(
          "be called on Python 3.",
     technique="TLC model checking (Uniform theorem) + TLC trace validation (C->S) of recorded entropy requests incl. exhaustive output distributions",
     ref="3/C17")
+CHECKS["C15"] = dict(
+    text="NumTheory.tla defines inverse, quadratic residue, Legendre and Jacobi (product over the factorisation) by definition; "
+         "NTModel cross-checks the definitions against Euler's criterion, Jacobi multiplicativity/periodicity and inverse uniqueness. "
+         "TLC is the oracle for every a in [0, p-1] for every odd prime p < 2000 (quick: < 400 + classes up to 2000), every modulus "
+         "m <= 400 x a in [-2m, 3m] coprime to m, every odd n in 3..2001 x a in [-n, 2n]; at production size (17 field primes and "
+         "orders, Mersenne / P-224-style primes) r^2 = q p + a and a i = q m + 1 are multiplied out by TLC on byte sequences with "
+         "untrusted quotient witnesses; non-residues must raise SquareRootError.",
+    note="Trusted: TLC, CPython pow for constructing non-residues at production size (sampled).",
+    technique="TLC model checking of the definitions + TLC trace validation (C->S) incl. witness identities on byte sequences",
+    ref="3/C15")
+CHECKS["C16"] = dict(
+    text="TLC decides by definition (trial division) the exact set of primes in every block of [-256, 2^15) (2^20 thorough), "
+         "next_prime for every n < 2^13 (2^16) and around maximal prime gaps, factorization for every n < 2^12 (2^17) plus squares and "
+         "products of primes just above the small-prime table and random n < 2^31, gcd/lcm for tuples of length 1..3 over [-12, 30] in "
+         "both calling conventions. Beyond 2^31: published strong pseudoprimes to the first prime bases, Carmichael numbers and "
+         "products of close primes carry factor witnesses that TLC multiplies out on bytes (is_prime must say False); a catalogue of "
+         "known primes must be accepted.",
+    note="Trusted: TLC. 'Never rejects a prime of any size' and exactness between 2^31 and 2^64 rest on a catalogue, as TLA+ cannot "
+         "decide primality of arbitrary 64-bit numbers.",
+    technique="TLC trace validation (C->S) against definitional primality/factorisation/gcd/lcm + factor-witness identities on bytes",
+    ref="3/C16")
 NOT_YET = {}
 
 
